@@ -391,6 +391,15 @@ pub fn run(tier: &str, seed: u64) -> i32 {
         |c, ctx| check_case(c, ctx),
     );
     report.add(st);
+    if thorough {
+        match compile_tier(seed) {
+            Ok(st) => report.add(st),
+            Err(e) => {
+                eprintln!("machinery error: compile farm: {e}");
+                return 2;
+            }
+        }
+    }
     report.assumptions = vec![
         "clause (8) of the design (rustc as oracle) is covered by the compile farm of the thorough tier when enabled; the quick tier decides with the interpreter".into(),
         "registries are produced by the SPM elaborator (conformance-checked against real scale-info)".into(),
@@ -402,4 +411,149 @@ pub fn replay(case: &Case) -> Vec<Violation> {
     let mut ctx = Ctx::default();
     check_case(case, &mut ctx);
     ctx.violations
+}
+
+
+/// Thorough tier: every distinct module the drivers produce under the compile profile is
+/// type-checked by rustc with the real parity-scale-codec derives.
+pub fn compile_tier(_seed: u64) -> Result<Stats, String> {
+    use crate::farm::*;
+    use crate::families::*;
+    use std::collections::HashSet;
+    let profile = compile_profile();
+    let mut progs: Vec<(String, Case)> = vec![];
+    let a = DArms { max_depth: 2 };
+    let (all, _, _) = enumerate(&a, 2, 1_000_000);
+    for (_, s) in &all {
+        for (prog, pos) in arms_programs(&s.expr) {
+            progs.push((format!("D-arms {pos}"), Case::new(RegSrc::Prog(prog), profile.clone(), "compile")));
+        }
+    }
+    let g = crate::graph::quick_graph(2);
+    let (all, _, _) = enumerate(&g, 2, 1_000_000);
+    for (_, s) in &all {
+        progs.push(("D-graph".into(), Case::new(RegSrc::Prog(s.program()), profile.clone(), "compile")));
+    }
+    let d = DGeneric {
+        max_fields: 2,
+        max_insts: 2,
+        include_cf3: true,
+        body_forms: ALL_BODY_FORMS.to_vec(),
+        param_forms: ALL_PARAM_FORMS.to_vec(),
+    };
+    let (all, _, _) = enumerate(&d, 1, 1_000_000);
+    for (_, s) in &all {
+        if crate::checks::c05::wf5_ok(s) {
+            let mut c = Case::new(RegSrc::Prog(s.program()), profile.clone(), "compile");
+            c.dedup = true;
+            progs.push(("D-generic".into(), c));
+        }
+    }
+    let f = DFamily {
+        max_members: 2,
+        max_fields: 1,
+        alphabet: FAM_ALPHABET.to_vec(),
+        forms: ALL_MEMBER_FORMS.to_vec(),
+        leads: vec![0],
+        with_neighbours: false,
+    };
+    let (all, _, _) = enumerate(&f, 4, 1_000_000);
+    for (_, s) in &all {
+        let mut c = Case::new(RegSrc::Prog(s.program()), profile.clone(), "compile");
+        c.dedup = true;
+        progs.push(("D-family".into(), c));
+    }
+    let mut pk = profile.clone();
+    pk.root = "runtime_types".into();
+    let mut c = Case::new(RegSrc::Polkadot { retain: None }, pk, "compile");
+    c.dedup = true;
+    progs.push(("polkadot".into(), c));
+    // generate, de-duplicate by token string
+    let generated: Vec<Option<FarmCase>> = {
+        use rayon::prelude::*;
+        progs
+            .par_iter()
+            .map(|(label, case)| {
+                let reg = case.registry().ok()?;
+                match generate(&reg, &case.settings.build()) {
+                    GenOutcome::Ok { tokens } => Some(FarmCase {
+                        label: label.clone(),
+                        replay: case.replay("C02"),
+                        tokens,
+                    }),
+                    _ => None,
+                }
+            })
+            .collect()
+    };
+    let mut seen = HashSet::new();
+    let mut cases = vec![];
+    let mut not_generated = 0u64;
+    let mut with_char = 0u64;
+    for g in generated {
+        match g {
+            Some(c) => {
+                // parity-scale-codec has no codec for `char`: such modules cannot compile with the
+                // codec derives whatever the generator does (outside the supported compile profile)
+                if c.tokens.contains("primitive :: char") {
+                    with_char += 1;
+                    continue;
+                }
+                if seen.insert(crate::engine::hash128(&c.tokens)) {
+                    cases.push(c);
+                }
+            }
+            None => not_generated += 1,
+        }
+    }
+    let res = compile(&cases, 16)?;
+    let mut st = Stats {
+        driver: format!(
+            "compile farm: rustc type-check (cargo check, parity-scale-codec 3.6.12 derives) of every distinct module of D-arms(depth<=2, all positions), D-graph(edges<=2), D-generic(depth<=1), D-family(depth<=4, de-duplicated), Polkadot under the compile profile, {} crates",
+            res.crates
+        ),
+        states: cases.len() as u64,
+        transitions: progs.len() as u64,
+        max_depth: 1,
+        bound_completed: 1,
+        exhaustive: true,
+        executed: cases.len() as u64,
+        distinct_outcomes: 1 + res.errors.len().min(1) as u64,
+        wall_s: res.wall_s,
+        ..Default::default()
+    };
+    st.notes.insert("programs generated under the compile profile".into(), progs.len() as u64);
+    st.notes.insert("programs for which generation does not succeed (not compiled)".into(), not_generated);
+    st.notes.insert("distinct modules compiled".into(), cases.len() as u64);
+    st.excluded.insert("module mentions `char`, for which parity-scale-codec has no codec (outside the compile profile)".into(), with_char);
+    st.samples = cases.iter().take(2).map(|c| json!({"label": c.label, "module": truncate(&c.tokens, 400)})).collect();
+    let mut by_code: std::collections::BTreeMap<String, (u64, Violation)> = Default::default();
+    for e in &res.errors {
+        let c = &cases[e.case];
+        let v = Violation {
+            sig: format!("C02/rustc/{}", e.code),
+            detail: format!("rustc rejects the module generated for a {} case: {} - module: {}", c.label, e.message, truncate(&c.tokens, 400)),
+            replay: c.replay.clone(),
+            size: c.tokens.len(),
+        };
+        match by_code.get_mut(&v.sig) {
+            Some((n, cur)) => {
+                *n += 1;
+                if v.size < cur.size {
+                    *cur = v
+                }
+            }
+            None => {
+                by_code.insert(v.sig.clone(), (1, v));
+            }
+        }
+    }
+    st.violations = by_code
+        .into_values()
+        .map(|(n, mut v)| {
+            v.detail = format!("{} ({n} modules fail this way; smallest shown)", v.detail);
+            v
+        })
+        .collect();
+    Ok(st)
 }
